@@ -15,9 +15,9 @@ package main
 import (
 	"bytes"
 	"fmt"
-	"os"
 	"math/big"
 	"math/rand"
+	"os"
 	"sort"
 	"strings"
 	. "zharness/hz"
